@@ -42,6 +42,12 @@ def copy_before_mutate(ctx):
             it = src(n.iter) if isinstance(n, ast.For) else ''
             if it.startswith('list(') and it.endswith(')'):
                 it = it[5:-1]
+            if isinstance(n, ast.For) and it not in (f'{source}.items()', f'{source}.values()'):
+                # the same collection under another local name (`declared = self.accessibles`)
+                itn = n.iter.args[0] if isinstance(n.iter, ast.Call) and dotted(n.iter.func) == 'list' and n.iter.args else n.iter
+                if isinstance(itn, ast.Call) and call_attr(itn) in ('items', 'values') and isinstance(itn.func.value, ast.Name) and \
+                        src(resolved(itn.func.value, f.node)) == f'self.{source}':
+                    it = f'{source}.{call_attr(itn)}()'
             if isinstance(n, ast.For) and it in (f'{source}.items()', f'{source}.values()'):
                 tgt = n.target.elts[-1] if isinstance(n.target, ast.Tuple) else n.target
                 if isinstance(tgt, ast.Name):
@@ -130,6 +136,86 @@ def datatype_escape(ctx):
         if t.attr == 'datatype' and isinstance(v, ast.Name):
             ctx.info(f'{lim.qualname}:store {src(t)}', s, 'a <p>_min/<p>_max limit parameter shares the datatype object of its base '
                      'parameter (same instance, not across instances)', lim)
+
+
+# methods that change their object without changing what it means (confirmed by reading), one reason each
+_NORMALISING = {
+    'fixExport': "replaces export=True by the wire name it stands for ('_' + name or the predefined name): idempotent, the description is the same",
+}
+
+
+def _mutates_self(m, ci, f, depth=3, _seen=None):
+    """[statement] by which method f changes its own object or an object reached from it (`self.x = ..`, `self.x.y = ..`,
+    through a local alias `d = self.x; d.y = ..`, a mutating container call on such an object, or a method of the same
+    object that does)"""
+    _seen = _seen or set()
+    if f.qualname in _seen:
+        return []
+    _seen = _seen | {f.qualname}
+    alias = {'self'}
+    for n in body_walk(f.node):
+        if isinstance(n, ast.Assign) and len(n.targets) == 1 and isinstance(n.targets[0], ast.Name) and dotted(n.value) and dotted(n.value).split('.')[0] in alias \
+                and dotted(n.value) != 'self':
+            alias.add(n.targets[0].id)
+    hits = []
+    for t, v, st in attr_stores(f.node):
+        base = dotted(t.value)
+        if base and base.split('.')[0] in alias:
+            hits.append(st)
+    for n in body_walk(f.node):
+        if isinstance(n, (ast.Assign, ast.AugAssign, ast.Delete)):
+            for t in (n.targets if not isinstance(n, ast.AugAssign) else [n.target]):
+                if isinstance(t, ast.Subscript) and dotted(t.value) and dotted(t.value).split('.')[0] in alias and dotted(t.value) != 'self':
+                    hits.append(n)
+    for c in calls_in(f.node):
+        if isinstance(c.func, ast.Attribute):
+            recv = dotted(c.func.value)
+            if recv and recv.split('.')[0] in alias and recv != 'self' and c.func.attr in ('append', 'add', 'update', 'pop', 'remove', 'clear', 'setdefault', 'extend',
+                                                                                             'discard', 'insert', 'popitem', 'setProperty'):
+                hits.append(c)
+            if recv == 'self' and depth > 0 and c.func.attr not in _NORMALISING:
+                g = None
+                for q in m.mro(ci.qualname):
+                    c2 = m.classes.get(q)
+                    if c2 and c.func.attr in c2.methods:
+                        g = c2.methods[c.func.attr]
+                        break
+                if g is not None and g is not f and _mutates_self(m, ci, g, depth - 1, _seen):
+                    hits.append(c)
+    return hits
+
+
+@rule('C09.R2h', min_instances=2)
+def deriving_from_an_inherited_accessible_leaves_it_alone(ctx):
+    """create_from_value / clone / copy of Parameter and Command run on the BASE class's accessible when a subclass overrides
+    it (by a value, by a plain method): they build a new object and must not change the one they were called on, nor objects
+    reached from it (its argument / datatype) - neither directly nor through a method of the same object.  Effects belong
+    to the clone (`res._helper(..)`), not to `self`"""
+    m = ctx.m
+    n = 0
+    for cname in (roles.PARAMETER, roles.COMMAND):
+        ci = m.cls(cname)
+        for meth in ('create_from_value', 'clone', 'copy'):
+            f = None
+            for q in m.mro(ci.qualname):
+                c2 = m.classes.get(q)
+                if c2 and meth in c2.methods:
+                    f = c2.methods[meth]
+                    break
+            if f is None:
+                continue
+            n += 1
+            ctx.analysed(f)
+            hits = _mutates_self(m, ci, f)
+            key = f'{ci.qualname}.{meth}:the accessible it is called on is not changed'
+            if hits:
+                ctx.bad(key, hits[0], f'`{src(hits[0]).splitlines()[0]}` changes the accessible {meth}() was called on (or an object it holds): when a subclass '
+                        'overrides an inherited accessible this is the BASE class\'s object - base class, sibling classes and instances created later are '
+                        'described and behave differently from then on', f)
+            else:
+                ctx.ok(key, f.node, 'no store / mutating call on self or on an object reached from self', f)
+    if n < 2:
+        raise AnchorMissing('create_from_value / clone of Parameter and Command not found')
 
 
 FRESH_CONTAINERS = ('accessibles', 'parameters', 'commands', 'paramCallbacks', 'writeDict', 'attachedModules', 'errors',
